@@ -173,8 +173,10 @@ CHECKS = {
         "exhaustive enumeration of the bin-boundary grid + Hypothesis random pairs against an independent arithmetic oracle",
         "Every pair of coordinates within +-2 of a bin edge (quick: edges that are multiples of 2^20 plus all pairs inside the "
         "two finest bins around every 2^17 multiple; thorough: every 2^17 multiple, ~8e8 calls) is compared with an oracle "
-        "written from the statement (0-based positions, direct per-level shifts); random pairs add the overlap corollary and "
-        "Feature.bin. Exhaustive on that finite grid, sampling elsewhere; no absence claim beyond it.",
+        "written from the statement (0-based positions, direct per-level shifts); random pairs add the overlap corollary, "
+        "Feature.bin and independence of the returned set from caller mutation; a stored_bin leg stores features whose coordinates "
+        "changed after construction (transform, edit, update(replace)) and checks the stored bin and bin-filtered queries up to 2^29. "
+        "Exhaustive on that finite grid, sampling elsewhere; no absence claim beyond it.",
         "bins() is pure; oracle arithmetic (gfv/props/c12.py expect_one/overlap_set) is trusted; Python ints.",
         "DESIGN.md section 4 C12, Appendix A.3",
     ),
